@@ -93,3 +93,39 @@ Definition lib_get_deps_paths (env_value : str) : list str :=
   match env_value with [] => [] | _ => split sep_char env_value end.
 Definition lib_get_output_path (env_value : str) : str := env_value.
 Definition lib_in_output_dir (env_out : str) (p : str) : str := env_out ++ SLASH :: p.
+
+(* ---- the environment handed to the task (start_execution), as the sources build it: Gen.Generated.gen_env_* ----
+   An environment is an association list read at its first match; a Python dict has unique keys, nothing below
+   depends on it.  [inherited] is os.environ. *)
+Definition env := list (str * str).
+Fixpoint env_get (k : str) (e : env) : option str :=
+  match e with [] => None | (k', v) :: e' => if str_eqb k k' then Some v else env_get k e' end.
+Fixpoint env_set (k v : str) (e : env) : env :=
+  match e with
+  | [] => [(k, v)]
+  | (k', v') :: e' => if str_eqb k k' then (k, v) :: e' else (k', v') :: env_set k v e'
+  end.
+Definition env_pop (k : str) (e : env) : env := filter (fun kv => negb (str_eqb k (fst kv))) e.
+
+Definition env_value (code : N) (out : str) (deps : list str) (name : str) : str :=
+  match code with 0 => out | 1 => cond_deps deps | _ => name end.
+Definition env_action (slot : N) (e : env) (a : N * str) : env :=
+  match fst a with 1 => env_set (snd a) (dec slot) e | _ => env_pop (snd a) e end.
+
+Definition spawn_env (inherited : env) (out : str) (deps : list str) (name : str) (slot : option N) : env :=
+  let e1 := fold_left (fun e kv => env_set (fst kv) (env_value (snd kv) out deps name) e) gen_env_overrides inherited in
+  match slot with
+  | Some sl => fold_left (env_action sl) gen_env_slot_some e1
+  | None => fold_left (env_action 0) gen_env_slot_none e1
+  end.
+
+(* what start_execution hands to subprocess.Popen besides the environment *)
+Record spawn := { sp_shell : bool; sp_executable : str; sp_command : str; sp_cwd : str; sp_new_session : bool }.
+Definition spawn_of (run : str) (args : list argval) (opts : list (str * argval)) (root : str) (i : ident) : option spawn :=
+  if gen_popen_cwd_is_working_path && gen_run_is_run_args_options_joined_by_space then
+    match cmdline run args opts with
+    | Some c => Some {| sp_shell := gen_popen_shell; sp_executable := gen_popen_executable; sp_command := c;
+                        sp_cwd := working_dir root i; sp_new_session := gen_popen_new_session |}
+    | None => None
+    end
+  else None.
